@@ -179,6 +179,7 @@ class Module:
             raise AnalysisError("cannot parse %s: %s" % (rel, e))
         # locals that were merely renamed get their reference names back (alpha-equivalent program, see alpha.py)
         from . import alpha
+        self.tree = alpha.normalise_shape(self.tree)
         self.alpha_renames = alpha.normalise(self.tree, name)
         self.bindings = {}  # name -> ('import', dotted) | ('func', F) | ('class', C) | ('assign', node)
         self.functions = {}
